@@ -44,11 +44,23 @@ JudgeC07(e) ==
            wrong == {i \in 1..Len(res) : res[i] # "ok"} IN
        IF wrong = {} THEN "ok" ELSE LET i == CHOOSE x \in wrong : \A y \in wrong : x <= y IN "p" \o ToString(i - 1) \o ":" \o res[i]
 
+\* C11 under concurrency: after every goroutine has returned, the callers overwrite their input buffers; the decoded values are read again
+JudgeC11(e) ==
+  IF e.ev # "sched" \/ e.out.kind # "ok" THEN "ok"
+  ELSE LET chg == {i \in 1..Len(e.procs) : /\ e.procs[i].op = "unmarshal" /\ ~e.out.results[i].panic /\ e.out.results[i].err = ""
+                                          /\ "backAfter" \in DOMAIN e.out.results[i]
+                                          /\ ~Eq(Bake(e.procs[i].T, ""), e.out.results[i].backAfter, e.out.results[i].back)} IN
+       IF chg = {} THEN "ok"
+       ELSE LET i == CHOOSE x \in chg : \A y \in chg : x <= y IN
+            "p" \o ToString(i - 1) \o ":decoded-value-changes-when-the-input-buffer-is-overwritten@" \o
+            Diff(Bake(e.procs[i].T, ""), e.out.results[i].backAfter, e.out.results[i].back)
+
 Init == l = 1 /\ bad = 0
 Next == /\ l <= Len(Trace)
-        /\ LET e == Trace[l]  v == JudgeC07(e) IN
+        /\ LET e == Trace[l]  v == JudgeC07(e)  w == JudgeC11(e) IN
            /\ (v # "ok" => PrintT("VERDICT " \o ToString(e.id) \o " C07 " \o v))
-           /\ bad' = bad + (IF v = "ok" THEN 0 ELSE 1)
+           /\ (w # "ok" => PrintT("VERDICT " \o ToString(e.id) \o " C11 " \o w))
+           /\ bad' = bad + (IF v = "ok" THEN 0 ELSE 1) + (IF w = "ok" THEN 0 ELSE 1)
         /\ l' = l + 1
 Spec == Init /\ [][Next]_vars
 Finished == (l = Len(Trace) + 1) => PrintT(<<"JUDGED", Len(Trace), bad>>)
